@@ -67,7 +67,7 @@ func c15RefRoot(kvs []c15KV, depth int) [32]byte {
 
 func c15Gen(rt *rapid.T) c15Input {
 	n := rapid.OneOf(rapid.IntRange(0, 6), rapid.IntRange(0, 40), rapid.IntRange(0, 200)).Draw(rt, "n")
-	if rapid.IntRange(0, 59).Draw(rt, "large") == 0 {
+	if l := rapid.IntRange(0, 99).Draw(rt, "large"); l == 57 || l == 23 || l == 81 { // (rapid favours the ends of a range: interior values keep the class rare)
 		// a realistic state: a thousand or more entries (one service with many items shares its
 		// leading key bits, so one side of the first branches is empty or a single leaf)
 		n = rapid.SampledFrom([]int{1000, 1023, 1024, 1025, 1500, 2048, 2500, 4100}).Draw(rt, "nlarge")
